@@ -232,7 +232,7 @@ class World:
                  'read_takes': rng.choice([0, 0, 0, 2, 50]), 'shutdown_takes': rng.choice([0, 0, 7]), 'read_fails': rng.random() < 0.1, 'fail': rng.choice([None] * 12 + ['early', 'init'])}
             mods.append(m)
         for m in mods:
-            if m['a1'] and m['cls'] != 'Typed' and rng.random() < 0.15:
+            if m['a1'] and rng.random() < (0.4 if m['cls'] == 'Typed' else 0.15):
                 m['a1_bare'] = True
         rng.shuffle(mods)
         scen = {'mods': mods, 'kind': 'random', 'other': any(m['a1'] == 'other' or m['a2'] == 'other' for m in mods)}
